@@ -180,8 +180,10 @@ func (g *genCtx) node(depth int) Node {
 	case x < 62:
 		g.files++
 		return Node{K: "file", ID: id, Kids: g.kids(depth-1, 2)}
-	case x < 70:
+	case x < 67:
 		return Node{K: "ignore", ID: id, Kids: g.kids(depth-1, 2)}
+	case x < 71:
+		return Node{K: "recover", ID: id, Kids: g.kids(depth-1, 2)}
 	default:
 		k := []string{"seq", "let", "when", "cond", "dolist", "dotimes", "lambda"}[g.r.Intn(7)]
 		return Node{K: k, ID: id, Kids: g.kids(depth-1, 2)}
@@ -279,12 +281,15 @@ func (n *Node) render(dir string, b *strings.Builder) {
 		b.WriteString(")")
 	case "ignore":
 		fmt.Fprintf(b, "(ignore-errors %s)", all())
+	case "recover":
+		fmt.Fprintf(b, "(recover rec%d (sim-emit \"recovered\" %d) %s)", n.ID, n.ID, all())
 	case "uwp":
 		cerr := ""
 		if n.CErr {
 			cerr = " (sim-emit \"signal\" \"simple\") (error \"error in cleanup\")"
 		}
-		fmt.Fprintf(b, "(unwind-protect (progn (sim-emit \"enter\" %d) %s) (sim-emit \"cleanup\" %d)%s)", n.ID, all(), n.ID, cerr)
+		// two cleanup forms: the second must follow the first, once
+		fmt.Fprintf(b, "(unwind-protect (progn (sim-emit \"enter\" %d) %s) (sim-emit \"cleanup\" %d) (sim-emit \"cleanup2\" %d)%s)", n.ID, all(), n.ID, n.ID, cerr)
 	case "lock":
 		// cs-leave is emitted by a cleanup inside the lock, i.e. while the
 		// mutex is still held, on every path
@@ -508,7 +513,8 @@ func (c *Case) judge(out runOut, f *Fault) *harness.Violation {
 	}
 	// I1 + I2: stack discipline of enter/cleanup markers of task 0
 	var stack []string
-	pendingRet := "" // a return-from to this block is on its way
+	pendingRet := ""  // a return-from to this block is on its way
+	lastCleanup := "" // region whose first cleanup form was the last marker
 	inCS := map[string]bool{}
 	lastSignal := ""
 	wrote := map[string]int{}
@@ -525,7 +531,7 @@ func (c *Case) judge(out runOut, f *Fault) *harness.Violation {
 			// Exit transfer (first sentence of C07): between a return-from and
 			// the end of its block only cleanups may run.
 			switch fs[0] {
-			case "cleanup", "cs-leave":
+			case "cleanup", "cleanup2", "cs-leave":
 			case "bend":
 				if fs[1] == pendingRet {
 					pendingRet = ""
@@ -549,6 +555,7 @@ func (c *Case) judge(out runOut, f *Fault) *harness.Violation {
 		case "cleanup":
 			if len(stack) > 0 && stack[len(stack)-1] == fs[1] {
 				stack = stack[:len(stack)-1]
+				lastCleanup = fs[1]
 				break
 			}
 			for _, open := range stack {
@@ -557,6 +564,11 @@ func (c *Case) judge(out runOut, f *Fault) *harness.Violation {
 				}
 			}
 			return viol("cleanup-twice", "%s: cleanup of region %s ran without a matching entry (a second time?); trace: %s", what, fs[1], trace(out.marks))
+		case "cleanup2":
+			if lastCleanup != fs[1] {
+				return viol("cleanup-order", "%s: the second cleanup form of region %s ran without its first cleanup form right before it; trace: %s", what, fs[1], trace(out.marks))
+			}
+			lastCleanup = ""
 		case "cs-enter":
 			inCS[fs[1]] = true
 		case "cs-leave":
@@ -742,7 +754,7 @@ func (e *engine) Shrink(raw json.RawMessage) (out []json.RawMessage) {
 			// replace the node by one of its kids (only for transparent forms)
 			if len(path) > 0 || true {
 				switch n.K {
-				case "seq", "let", "when", "cond", "dolist", "dotimes", "lambda", "ignore", "uwp", "lock", "file", "block":
+				case "seq", "let", "when", "cond", "dolist", "dotimes", "lambda", "ignore", "recover", "uwp", "lock", "file", "block":
 					emit(replace(path, cloneNode(n.Kids[i])))
 				}
 			}
